@@ -71,6 +71,13 @@ def analyse_tokens(pa: paths.Path) -> TokenReport:
                     t.chosen_removed = True
                 else:
                     problems.append((e, f'`{e.list}.remove(...)` removes something other than the chosen token'))
+            elif e.op == 'pop' and lv in by_val and by_val[lv].is_list:
+                t = by_val[lv]
+                idx = e.args[0] if e.args else None
+                if idx is not None and idx[0] == 'lindex' and same(idx[2], t.chosen):
+                    t.chosen_removed = True
+                else:
+                    problems.append((e, f'`{e.list}.pop(...)` removes something other than the chosen token'))
             elif e.op == 'pop' and e.list in local:
                 d = local[e.list]
                 idx = e.args[0] if e.args else None
